@@ -199,17 +199,14 @@ def family_accept(func, x, s, mode=0):
 # ---------------------------------------------------------------- MOD
 
 def mod_quotients(n, d):
-    """the readings of INT(n/d): floor of the double quotient (what the formula INT(n/d) computes in
-    IEEE arithmetic; dropped if that quotient overflows) and floor of the exact quotient of the
-    decimal renderings"""
-    qs = [_floor(frac(n) / frac(d))]
+    """the reading of INT(n/d) in the identity n = d*INT(n/d) + MOD(n, d): what the formula INT(n/d) itself computes,
+    the floor of the double quotient (the exact quotient of the decimal renderings only if that overflows).  A MOD
+    which takes the quotient from exact decimal arithmetic (MOD(0.3, 0.1) = 0) does not go with the INT(0.3/0.1) = 2
+    the same workbook computes: the identity is off by a whole divisor"""
     try:
-        qf = math.floor(float(n) / float(d))
+        return [math.floor(float(n) / float(d))]
     except OverflowError:
-        qf = qs[0]
-    if qf not in qs:
-        qs.insert(0, qf)
-    return qs
+        return [_floor(frac(n) / frac(d))]
 
 
 def mod_clauses(n, d, m):
